@@ -37,6 +37,9 @@ CHECKS = {
  'C37': dict(cat='other', tech='contract postconditions (size == bound keys == rendered placeholders, consecutive ids, operand-role binding, per-clause ownership, disjoint ranges in batches) on the real cqlengine clause / statement classes and BatchQuery.execute, executed by the AST interpreter on opaque value tokens for every enumerated shape',
              text='Bounded in shape, parametric in the bound values: every clause class in every operation/previous-value shape with collections of 0..3 opaque elements, statements built from up to 2 where / 3 assignment / 1 conditional / 2 delete clauses, batches of up to 3 statements, starting ids 0 and 7. The obligations are evaluated on concrete runs of the real methods (no solver reasoning is needed: strings and counters are concrete), so this is exhaustive exploration of the listed shapes, not a proof over all shapes.',
              ref='DESIGN.md §4 C37', note='Trusted base: the pyvc AST interpreter executing the real methods; parametricity in the bound values (tokens are only stored, compared and measured); shapes are enumerated.'),
+ 'C35': dict(cat='other', tech='cell-semantics postconditions (rendered operations with their bound operands applied to the previous value give the new value) on the real cqlengine Set/List/Map/CounterUpdateClause, MapDeleteClause and BaseValueManager for every (previous, new) pair over small universes, executed by the AST interpreter; BOUNDED random model-operation sequences through the real DMLQuery.save/update against an in-memory table with the same semantics',
+             text='Bounded: clause level is exhaustive over sets on 3 elements, lists of length <= 3 (quick: over 2 elements plus 3 lists over 3), maps over 2 keys x 2 values, counters -3..3 (parametric in element values); flow level is 4 000 (thorough 60 000) random create + save/update sequences on one model with partition + clustering key, text, static, set, list, map columns. Server-side semantics beyond one cell are outside the model.',
+             ref='DESIGN.md §4 C35', note='Trusted base: the cell-level CQL semantics function (spec), the pyvc AST interpreter executing the real methods, parametricity in element values; exploration, not proof.'),
  'C31': dict(cat='proof', tech='deductive: lock-invariant proof of MonotonicTimestampGenerator.__call__ for arbitrary clock and history + frame scan',
              text='Lock invariant (all returned timestamps <= last) proved preserved by __call__ for an arbitrary prior state and clock reading; '
                   'strict monotonicity across threads follows for lock-respecting schedules; unprotected reads/writes of `last` fail an obligation.',
